@@ -12,6 +12,7 @@ import (
 	"sync"
 	"time"
 
+	"github.com/goplus/xgo/cl"
 	xformat "github.com/goplus/xgo/x/format"
 
 	"verifharness/xgolib"
@@ -44,7 +45,8 @@ func convert(goSrc string) (o convOutcome) {
 	if o.ConvErr != "" || o.ConvPanic != "" {
 		return
 	}
-	c := xgolib.Compile(map[string]string{"main.xgo": o.XGo}, xgolib.Options{NoFileLine: true})
+	c := xgolib.Compile(map[string]string{"main.xgo": o.XGo}, xgolib.Options{NoFileLine: true,
+		Config: func(conf *cl.Config) { conf.Importer = fastImporter() }})
 	o.CompStage = c.Stage
 	switch {
 	case c.Panic != nil:
